@@ -146,6 +146,65 @@ func urlVal(u *url.URL) string {
 		VS(u.Fragment), VS(u.RawFragment), VS(u.String()), VS(u.EscapedPath()), VS(u.EscapedFragment()), VS(cp.String())})
 }
 
+// c14CommonEndpoint: the common class of endpoints of theorem C14_endpoint_kept (coq/Url.v common_endpoint), written from its
+// English definition: absolute http / https URL with lower-case scheme; host of unreserved characters, optional decimal port,
+// no userinfo / IPv6 literal / escape; path empty or '/'-rooted, made of unreserved / sub-delim / ':' '@' '/' and well-formed
+// %XX; optional query of any bytes but control characters and '#'; no fragment.  The case set urlmodel compares it with the
+// Coq predicate on every generated string.
+func c14CommonEndpoint(u string) bool {
+	var r string
+	switch {
+	case strings.HasPrefix(u, "https://"):
+		r = u[len("https://"):]
+	case strings.HasPrefix(u, "http://"):
+		r = u[len("http://"):]
+	default:
+		return false
+	}
+	hp, q, _ := strings.Cut(r, "?")
+	auth, path := hp, ""
+	if i := strings.IndexByte(hp, '/'); i >= 0 {
+		auth, path = hp[:i], hp[i:]
+	}
+	host, port, _ := strings.Cut(auth, ":")
+	unreserved := func(c byte) bool {
+		return 'a' <= c && c <= 'z' || 'A' <= c && c <= 'Z' || '0' <= c && c <= '9' || c == '-' || c == '.' || c == '_' || c == '~'
+	}
+	hex := func(c byte) bool { return '0' <= c && c <= '9' || 'a' <= c && c <= 'f' || 'A' <= c && c <= 'F' }
+	if host == "" {
+		return false
+	}
+	for i := 0; i < len(host); i++ {
+		if !unreserved(host[i]) {
+			return false
+		}
+	}
+	for i := 0; i < len(port); i++ {
+		if port[i] < '0' || port[i] > '9' {
+			return false
+		}
+	}
+	for i := 0; i < len(path); i++ {
+		c := path[i]
+		if c == '%' {
+			if i+2 >= len(path) || !hex(path[i+1]) || !hex(path[i+2]) {
+				return false
+			}
+			i += 2
+			continue
+		}
+		if !unreserved(c) && strings.IndexByte("!$&'()*+,;=:@/", c) < 0 {
+			return false
+		}
+	}
+	for i := 0; i < len(q); i++ {
+		if q[i] < 0x20 || q[i] == 0x7f || q[i] == '#' {
+			return false
+		}
+	}
+	return true
+}
+
 // c14OutsideModel: the inputs of url.Parse coq/Url.v does not cover and the C14 cases keep on the table oracle.
 // Every branch of Parse / String is modelled (IPv6 zones and validOptionalPort included): the class is empty.
 func c14OutsideModel(raw string) bool { return false }
@@ -193,6 +252,14 @@ func c14UrlModel(c *Ctx, n int) {
 				c.Count("urlmodel:userinfo")
 			}
 		}
+		common := c14CommonEndpoint(raw)
+		if common {
+			c.Count("urlmodel:common-class")
+			if err != nil || u.String() != raw {
+				c.Violate("spec", "urlmodel:common-class-not-reproduced", "net/url does not reproduce an endpoint of the common class (C14_common_endpoint_round_trip is about another net/url)", map[string]interface{}{"url": raw})
+			}
+		}
+		obs = VL([]string{VB(common), obs})
 		cs.Add(S(raw), obs, fmt.Sprintf("url.Parse(%q) [%s]", raw, origin))
 		c.Eval(err != nil || raw != "" && (u.String() != raw || u.RawPath != "" || u.User != nil || u.Fragment != "" || u.RawQuery != ""), "urlmodel|"+raw)
 		c.Count("urlmodel:" + class)
@@ -212,6 +279,18 @@ func c14UrlModel(c *Ctx, n int) {
 			add(urlMutate(r, urlCorpus[r.Intn(len(urlCorpus))]), "corpus-mutated")
 		case 3, 4:
 			add(urlMutate(r, urlGrammar(r)), "grammar-mutated")
+		case 6:
+			// near the boundary of the common class
+			pick := func(p []string) string { return p[r.Intn(len(p))] }
+			s := pick([]string{"https://", "http://", "https://", "HTTPS://", "https:/", "ftp://"}) +
+				pick([]string{"idp.example.com", "IDP.example.com", "127.0.0.1", "a", "a-b_c.d~e", "", "a%41", "[::1]", "u@a", "a+b"}) +
+				pick([]string{"", "", ":8443", ":", ":0", ":x", ":80:80"}) +
+				pick([]string{"", "/", "/sso", "/saml2/sso;v=1/%7Etenant/a%2Fb", "/a:b@c/!$&'()*+,;=", "/%zz", "/%4", "/a b", "/a[b]", "/a\\b", "/\xc3\xbc", "sso"}) +
+				pick([]string{"", "", "?", "?a=1&b=%20", "?a b", "?\xc3\xbc?/", "?a#f", "#f", "?\x7f"})
+			if r.Intn(4) == 0 {
+				s = urlMutate(r, s)
+			}
+			add(s, "common-class-boundary")
 		case 5:
 			b := make([]byte, 1+r.Intn(10))
 			for i := range b {
